@@ -319,7 +319,7 @@ func genReq(rng *hlib.Rng) reqSpec {
 func main() {
 	r = hlib.Start()
 	r.Rule = "case = one request (proto 1.1/2/3, TLS+SNI or plain, Host, peer address, gateway port, inbound header set) served by the real proxy handler chain and received by a recording tunnel backend; non-trivial = distinct request line; header sets mix spoofed forwarding headers (duplicated, mixed-case names, listed in Connection) with benign ones"
-	rng := hlib.NewRng(r.Seed)
+	rng := hlib.NewRng(hlib.NewRng(r.Seed).U64()) // re-seed through one output: consecutive seeds must not give shifted copies of one stream
 	w := newWorld()
 	if r.Replay != "" {
 		for _, t := range r.ReplayLines() {
